@@ -113,6 +113,16 @@ Fixpoint wf_order (prepared : bool) (ops : list op) : bool :=
   | OReset :: r => wf_order false r
   end.
 
+(* has a PrepareSet succeeded since the last reset (the discipline wf_order tracks) *)
+Fixpoint prep_state (p : bool) (ops : list op) : bool :=
+  match ops with
+  | [] => p
+  | OPrepare SUndefined _ :: r => prep_state p r
+  | OPrepare _ _ :: r => prep_state true r
+  | OReset :: r => prep_state false r
+  | _ :: r => prep_state p r
+  end.
+
 (* the same operations with the add forms replaced by those of [g], in order *)
 Definition form_ok (f : addform) : bool := match f with FExtra k => (0 <=? k)%Z | _ => true end.
 Fixpoint reform (g : list addform) (ops : list op) : list op :=
